@@ -1665,11 +1665,29 @@ func (vc *VC) alloc(st *State, x *ssa.Alloc) {
 		return
 	}
 	vc.zeroInit(st, r, elem)
+	vc.zeroGhost(st, r, elem)
 	t := Term{S: r, Sort: "Int", T: x.Type()}
 	if !subObject(elem) {
 		t.Loc = &Loc{Kind: locCell, Base: Term{S: r, Sort: "Int"}, ElemT: elem}
 	}
 	vc.define(x, t)
+}
+
+// zeroGhost: the ghost state of a freshly allocated object whose zero value has a documented meaning:
+// "the zero value for Buffer is an empty buffer ready to use" (package bytes), owned by nobody.
+func (vc *VC) zeroGhost(st *State, ref string, elem types.Type) {
+	n, ok := types.Unalias(elem).(*types.Named)
+	if !ok || n.Obj().Pkg() == nil || n.Obj().Pkg().Path() != "bytes" || n.Obj().Name() != "Buffer" {
+		return
+	}
+	if gf, ok := vc.P.spec.GhostFields["out"]; ok {
+		_, srt := (&Env{vc: vc, st: st, old: st, vars: map[string]Term{}, pkg: vc.P.logPkg.Types}).resolveType(gf.Sort)
+		vc.P.prelude.use(vc, "bnil")
+		vc.setAt(st, "G_out", "(Array Int "+srt+")", ref, "bnil")
+	}
+	if _, ok := vc.P.spec.GhostVars["pooled"]; ok {
+		vc.setAt(st, "G_pooled", "(Array Int Bool)", ref, "false")
+	}
 }
 
 func (vc *VC) binop(x *ssa.BinOp, guard string) Term {
